@@ -134,7 +134,36 @@ def scenario_disconnect_after_the_run_ended():
     return _run(body)
 
 
-ALL = [lambda: scenario_reconnect(False), lambda: scenario_reconnect(True), scenario_no_run, scenario_row_without_start, scenario_disconnect_after_the_run_ended]
+def scenario_shutdown_after_the_run_ended():
+    """a row written during a run must be rewritten without a run id when the aggregator shuts down while the engine is connected and idle"""
+    from datetime import datetime, timezone
+    from openpectus.aggregator.data import database
+    import openpectus.aggregator.data.models as DMdl
+    from openpectus.aggregator.aggregator import Aggregator
+    import openpectus.aggregator.models as Mdl
+    database.configure_db("sqlite:///:memory:")
+    DMdl.DBModel.metadata.create_all(database._engine)  # type: ignore
+
+    def body():
+        agg = Aggregator(Mock(), _Pub(), _Pub())
+        ed = _engine_data()
+        agg.from_engine.register_engine_data(ed)
+        ed.run_data = Mdl.RunData.empty(run_id="run-1", run_started=datetime(2024, 1, 1, tzinfo=timezone.utc))
+        agg.from_engine.engine_disconnected("E1")           # row now carries run-1
+        ed2 = _engine_data()
+        agg.from_engine.register_engine_data(ed2)           # run-1 continues
+        ed2.reset_run()                                     # the run ends
+        agg.shutdown()                                      # graceful shutdown with the engine connected and idle
+        agg = Aggregator(Mock(), _Pub(), _Pub())
+        ed3 = _engine_data()
+        agg.from_engine.register_engine_data(ed3)
+        return {"violated": ed3.has_run(), "scenario": "graceful shutdown with an idle engine after its run ended: a stale run id must not be restored",
+                "run_restored": ed3.run_data.run_id if ed3.has_run() else None}
+    return _run(body)
+
+
+ALL = [scenario_shutdown_after_the_run_ended, lambda: scenario_reconnect(False), lambda: scenario_reconnect(True), scenario_no_run, scenario_row_without_start, scenario_disconnect_after_the_run_ended]
+ALL = ALL[1:] + ALL[:1]        # keep the indices of the earlier scenarios
 if __name__ == "__main__":
     for s in ALL:
         print(s())
